@@ -287,6 +287,26 @@ func syntheticRequests(reqdir string) error {
 				},
 			}},
 		}, {
+			// a map field declared BEFORE a nested message (protoc lists nested types in source order, so the synthetic
+			// map-entry type precedes the real nested message)
+			Name: str("Outer"),
+			Field: []*descriptorpb.FieldDescriptorProto{
+				{Name: str("attrs"), JsonName: str("attrs"), Number: i32(1), Label: lbl(rep), Type: typ(descriptorpb.FieldDescriptorProto_TYPE_MESSAGE), TypeName: str(".verif.app.Outer.AttrsEntry")},
+				{Name: str("inner"), JsonName: str("inner"), Number: i32(2), Label: lbl(opt), Type: typ(descriptorpb.FieldDescriptorProto_TYPE_MESSAGE), TypeName: str(".verif.app.Outer.Inner")},
+			},
+			NestedType: []*descriptorpb.DescriptorProto{{
+				Name: str("AttrsEntry"), Options: &descriptorpb.MessageOptions{MapEntry: proto.Bool(true)},
+				Field: []*descriptorpb.FieldDescriptorProto{
+					{Name: str("key"), JsonName: str("key"), Number: i32(1), Label: lbl(opt), Type: typ(descriptorpb.FieldDescriptorProto_TYPE_STRING)},
+					{Name: str("value"), JsonName: str("value"), Number: i32(2), Label: lbl(opt), Type: typ(descriptorpb.FieldDescriptorProto_TYPE_STRING)},
+				},
+			}, {
+				Name: str("Inner"),
+				Field: []*descriptorpb.FieldDescriptorProto{
+					{Name: str("x"), JsonName: str("x"), Number: i32(1), Label: lbl(opt), Type: typ(descriptorpb.FieldDescriptorProto_TYPE_STRING)},
+				},
+			}},
+		}, {
 			// ... of a repeated (packed) enum field ...
 			Name: str("Audit"),
 			Field: []*descriptorpb.FieldDescriptorProto{
